@@ -41,6 +41,24 @@ Check_VEC(r) ==
                <<"write_accepted", ~r.err>>,
                <<"write_layout", r.out = r.bytes>> >>)
 -----------------------------------------------------------------------------
+\* C02 (a) - the real checksum step on all 65536 x 256 (register, byte) pairs reachable after first byte b1:
+\* sums[b2 * 256 + b3 + 1] is the real Sum16 after the bytes b1 b2 b3
+Check_X25ALL(r) ==
+  LET s1 == X25!TableStep(X25!Init, r.b1)
+      bad == {i \in 0..65535 : r.sums[i + 1] # X25!TableStep(X25!TableStep(s1, i \div 256), i % 256)}
+  IN Failed(<< <<"H_len", Len(r.sums) = 65536>>, <<"crc_step", bad = {}>> >>)
+
+\* C02 (b) - any byte string fed in any split; Sum16 / Sum / Reset
+Check_X25S(r) ==
+  LET data == FlattenSeq(r.chunks)
+      c == X25!Crc(data)
+  IN Failed(<< <<"sum16", r.sum16 = c>>,
+               <<"sum16_idempotent", r.again = c>>,
+               <<"sum_appends_le", r.sum = r.prefix \o <<c % 256, c \div 256>> >>,
+               <<"reset", r.after_reset = c>>,
+               <<"size", r.size = 2>> >>)
+
+-----------------------------------------------------------------------------
 \* C03 - a message definition (reflected Go struct `raw`) as initialised by the library:
 \* CRC_EXTRA and the base / extended payload sizes are those the spec derives
 Check_DEF(r, raw) ==
